@@ -31,6 +31,9 @@ def _shape(rnd):
     src = rnd.choice(SOURCES)
     if src is not None:
         sh['src'] = src
+    if rnd.random() < 0.3:
+        # a source given to the ExtEvent object itself: used unless send() gets one (even an empty one)
+        sh['csrc'] = rnd.choice(['gateway', '_ext_panel', 'x'])
     if rnd.random() < 0.5:
         sh['items'] = {'a': rnd.randint(0, 9), 'tag': rnd.choice(['x', 'y'])}
         if rnd.random() < 0.3:
